@@ -345,7 +345,7 @@ class Inliner:
             binds.append({"k": "assign", "place": {"l": up[i], "p": []}, "rv": {"use": o}, "span": aspan})
         agg_blk["stmts"][idx:idx + 1] = binds
         # locate the caller's Ready arm and the drop target of its pending yield
-        ready, pend_drop = None, None
+        ready, pend_drop, lay_span = None, None, None
         nxt = caller["blocks"][pt["target"]] if pt.get("target") is not None else None
         if nxt is not None and nxt["term"]["k"] == "switch":
             arms = dict((str(v), b) for v, b in nxt["term"]["arms"])
@@ -357,6 +357,7 @@ class Inliner:
                 tt = caller["blocks"][pend]["term"]
                 if tt["k"] == "yield":
                     pend_drop = tt.get("drop")
+                    lay_span = tt.get("layout_span", tt["span"])
                     break
                 pend = tt.get("target") if tt["k"] in ("goto", "drop", "false_edge") else None
         ctx_local = 2 if caller.get("coroutine_kind") else None
@@ -365,6 +366,9 @@ class Inliner:
         for j in range(bbase, bbase + n0):
             b = caller["blocks"][j]
             tt = b["term"]
+            if lay_span is not None and tt["k"] in ("yield", "call"):
+                # the compiler's coroutine layout of the caller knows this suspension as the caller's own await of the helper
+                tt["layout_span"] = lay_span
             if tt["k"] == "return":
                 b["stmts"].append({"k": "assign", "place": pt["dest"], "span": tt["span"],
                                    "rv": {"agg": "adt", "adt": "std::task::Poll", "variant": "Ready", "vidx": 0, "fields": ["0"], "targs": [], "ops": [{"move": {"l": lbase, "p": []}}]}})
